@@ -33,11 +33,11 @@ PLAN = {"quick": {"procs": 3, "shards": 6}, "thorough": {"procs": 8, "shards": 1
 # process settings; the first one is the reference
 SETTINGS = [
     {"GOMAXPROCS": "1", "GOGC": "100", "GODEBUG": "", "noise": 0},
-    {"GOMAXPROCS": "4", "GOGC": "5", "GODEBUG": "gcstoptheworld=1", "noise": 4},
+    {"GOMAXPROCS": "4", "GOGC": "5", "GODEBUG": "gcstoptheworld=1", "noise": 4, "order": "reverse"},
     {"GOMAXPROCS": "16", "GOGC": "400", "GODEBUG": "asyncpreemptoff=1", "noise": 0},
     {"GOMAXPROCS": "16", "GOGC": "10", "GODEBUG": "madvdontneed=1", "noise": 16},
     {"GOMAXPROCS": "4", "GOGC": "50", "GODEBUG": "gcshrinkstackoff=1", "noise": 1},
-    {"GOMAXPROCS": "1", "GOGC": "5", "GODEBUG": "", "noise": 2},
+    {"GOMAXPROCS": "1", "GOGC": "5", "GODEBUG": "", "noise": 2, "order": "reverse"},
     {"GOMAXPROCS": "16", "GOGC": "200", "GODEBUG": "gcstoptheworld=2,asyncpreemptoff=1", "noise": 8},
     {"GOMAXPROCS": "4", "GOGC": "25", "GODEBUG": "scavtrace=0", "noise": 3},
 ]
@@ -55,6 +55,14 @@ WHITELIST = {
         "fmt.Formatter arm for the %p verb; reached only when a caller formats an address with %p, which no hub code does (the scan lists every %p literal)",
     ("ptr-print", "types/address.go", "(NodeAddress).Format", '"%p"'):
         "fmt.Formatter arm for the %p verb; reached only when a caller formats an address with %p, which no hub code does (the scan lists every %p literal)",
+    ("global-write", "types/config.go", "(*Config).SetBech32PrefixForProvider", 'config.prefixes["provider_addr"] = addr'):
+        "process configuration before the config is sealed (assert() panics once Seal() was called at start-up); not reachable from message handling or block hooks",
+    ("global-write", "types/config.go", "(*Config).SetBech32PrefixForProvider", 'config.prefixes["provider_pub"] = pub'):
+        "process configuration before the config is sealed; not reachable from message handling or block hooks",
+    ("global-write", "types/config.go", "(*Config).SetBech32PrefixForNode", 'config.prefixes["node_addr"] = addr'):
+        "process configuration before the config is sealed; not reachable from message handling or block hooks",
+    ("global-write", "types/config.go", "(*Config).SetBech32PrefixForNode", 'config.prefixes["node_pub"] = pub'):
+        "process configuration before the config is sealed; not reachable from message handling or block hooks",
     ("time-now", "types/test_utils.go", "(package level)", "Now"):
         "package-level test fixture TestTimeNow, referenced from *_test.go files only (checked on every run: GUARDS)",
 }
@@ -140,7 +148,8 @@ def _env_of(s):
 
 
 def _label(s):
-    return "GOMAXPROCS=%s GOGC=%s GODEBUG=%s noise=%d" % (s["GOMAXPROCS"], s["GOGC"], s["GODEBUG"] or "-", s["noise"])
+    return "GOMAXPROCS=%s GOGC=%s GODEBUG=%s noise=%d%s" % (s["GOMAXPROCS"], s["GOGC"], s["GODEBUG"] or "-", s["noise"],
+                                                            " histories in reverse order" if s.get("order") == "reverse" else "")
 
 
 def _first_difference(a_path, b_path):
@@ -166,6 +175,10 @@ def _run_digests(V, d, shard_args, nprocs, log):
             s = SETTINGS[pi % len(SETTINGS)]
             out = os.path.join(d, "digest.%s.p%d.txt" % (k, pi))
             cmd = "%s digest %s -out %s -noise %d" % (harness, a, out, s["noise"])
+            if s.get("order") == "reverse":
+                # the same histories, executed in the opposite order inside the process: a result that depends on what the
+                # process did before (a package-level cache, a counter) shows as a different digest of the same history
+                cmd += " -order reverse"
             if pi == 0:
                 cmd += " -ops %s" % os.path.join(d, "digest.%s.ops" % k)
             pending.append((k, pi, cmd, _env_of(s), out))
